@@ -4,7 +4,7 @@ use std::sync::Arc;
 
 use serde_json::{Value, json};
 use sim_core::batch::{Engine, Plan, RunCtx, RunReport, Tier, Violation};
-use sim_core::{Fingerprint, Rng, fnv64_str};
+use sim_core::{Fingerprint, Rng};
 
 use crate::alloc::CEILING;
 use crate::exec::{self, Job, Obs, Outcome};
@@ -47,6 +47,8 @@ fn outcome_class(o: &Outcome) -> &'static str {
         Outcome::Err(_) => "err",
         Outcome::Panic { .. } => "panic",
         Outcome::Runaway { .. } => "runaway",
+        Outcome::Died { .. } => "died",
+        Outcome::Hung { .. } => "hung",
     }
 }
 
@@ -62,13 +64,31 @@ fn judge(fault_free: bool, input_len: usize, obs: &Obs) -> Option<Judged> {
             } else {
                 "panic"
             };
-            Some(Judged { clause, detail: format!("panic at {location}: {message}"), location: location.clone() })
+            Some(Judged {
+                clause,
+                detail: format!("panic at {location}: {message}"),
+                location: location.clone(),
+            })
         }
         Outcome::Runaway { bytes } => Some(Judged {
             clause: "runaway-allocation",
             detail: format!(
                 "single allocation request of {bytes} bytes for an input of {input_len} bytes (above the {} MiB ceiling: the process would abort in handle_alloc_error or be OOM-killed)",
                 CEILING >> 20
+            ),
+            location: String::new(),
+        }),
+        Outcome::Died { how } => Some(Judged {
+            clause: "process-death",
+            detail: format!(
+                "the process executing the decode of this {input_len}-byte input was {how}"
+            ),
+            location: String::new(),
+        }),
+        Outcome::Hung { seconds } => Some(Judged {
+            clause: "unbounded-loop",
+            detail: format!(
+                "the decode of this {input_len}-byte input did not return within {seconds} s (killed)"
             ),
             location: String::new(),
         }),
@@ -146,20 +166,14 @@ impl<'a> Exec<'a> {
         let entry = &enc.entries[spec.entry];
         Job {
             dec: entry.dec.clone(),
-            label: format!(
-                "{}/{} via {} faults={} input={}",
-                enc.ty,
-                enc.form,
-                entry.name,
-                serde_json::to_string(&spec.faults).unwrap_or_default(),
-                hex::encode(&input[..input.len().min(4096)])
-            ),
             input,
         }
     }
 
     fn decode_one(&self, spec: &CaseSpec, input: &[u8]) -> Obs {
-        exec::run_jobs(vec![self.job(spec, input.to_vec())]).pop().expect("one observation")
+        exec::run_jobs(vec![self.job(spec, input.to_vec())])
+            .pop()
+            .expect("one observation")
     }
 
     fn is_fault_free(&self, spec: &CaseSpec, input: &[u8]) -> bool {
@@ -184,7 +198,9 @@ impl<'a> Exec<'a> {
     /// Shrink the fault list, then the input (shortest prefix with the same clause and site).
     fn minimise(&self, spec: &CaseSpec, j: &Judged) -> (CaseSpec, Vec<u8>) {
         let same = |obs: &Obs, len: usize, fault_free: bool| {
-            judge(fault_free, len, obs).map(|x| x.clause == j.clause && x.location == j.location).unwrap_or(false)
+            judge(fault_free, len, obs)
+                .map(|x| x.clause == j.clause && x.location == j.location)
+                .unwrap_or(false)
         };
         let mut spec = spec.clone();
         if spec.faults.len() > 1 {
@@ -198,18 +214,21 @@ impl<'a> Exec<'a> {
                     let obs = self.decode_one(&s, &input);
                     same(&obs, input.len(), self.is_fault_free(&s, &input))
                 },
-                40,
+                if j.clause == "unbounded-loop" { 6 } else { 40 },
             );
         }
         let (input, _) = self.input_of(&spec);
-        if j.clause == "roundtrip" {
+        if matches!(j.clause, "roundtrip" | "unbounded-loop" | "process-death") {
+            // a prefix scan would pay one time-out / one dead child per candidate
             return (spec, input);
         }
         // shortest violating prefix, scanned in chunks (violations sit in the first bytes)
         let mut p = 0usize;
         while p < input.len() {
             let end = (p + 256).min(input.len());
-            let jobs: Vec<Job> = (p..end).map(|l| self.job(&spec, input[..l].to_vec())).collect();
+            let jobs: Vec<Job> = (p..end)
+                .map(|l| self.job(&spec, input[..l].to_vec()))
+                .collect();
             let obs = exec::run_jobs(jobs);
             for (k, o) in obs.iter().enumerate() {
                 if same(o, p + k, false) {
@@ -222,7 +241,14 @@ impl<'a> Exec<'a> {
     }
 }
 
-fn state_hash(ty: &str, form: &str, entry: &str, fired: &[&'static str], class: &str, misdirected: bool) -> u64 {
+fn state_hash(
+    ty: &str,
+    form: &str,
+    entry: &str,
+    fired: &[&'static str],
+    class: &str,
+    misdirected: bool,
+) -> u64 {
     let mut f = Fingerprint::new();
     f.add(ty).add(form).add(entry);
     let mut kinds: Vec<&str> = fired.to_vec();
@@ -265,8 +291,16 @@ fn enumerate_primary(set: &HonestSet, e: usize) -> Vec<Vec<Fault>> {
     // every 16-byte block lost (zeros) or erased (ones)
     let mut off = 0;
     while off < len {
-        out.push(vec![Fault::Fill { off, len: 16, val: 0 }]);
-        out.push(vec![Fault::Fill { off, len: 16, val: 0xff }]);
+        out.push(vec![Fault::Fill {
+            off,
+            len: 16,
+            val: 0,
+        }]);
+        out.push(vec![Fault::Fill {
+            off,
+            len: 16,
+            val: 0xff,
+        }]);
         off += 16;
     }
     out
@@ -276,30 +310,57 @@ fn random_fault(rng: &mut Rng, set: &HonestSet, src: usize, allow_structural: bo
     let enc = &set.encodings[src];
     let len = enc.bytes.len().max(1);
     let pick_off = |rng: &mut Rng| -> usize {
-        if !enc.hot.is_empty() && rng.chance(0.4) { *rng.pick(&enc.hot) } else { rng.index(len) }
+        if !enc.hot.is_empty() && rng.chance(0.4) {
+            *rng.pick(&enc.hot)
+        } else {
+            rng.index(len)
+        }
     };
-    let w: &[u32] = if allow_structural { &[30, 15, 12, 12, 8, 14, 9] } else { &[40, 20, 15, 25, 0, 0, 0] };
+    let w: &[u32] = if allow_structural {
+        &[30, 15, 12, 12, 8, 14, 9]
+    } else {
+        &[40, 20, 15, 25, 0, 0, 0]
+    };
     match rng.weighted(w) {
-        0 => Fault::Flip { bit: pick_off(rng) * 8 + rng.index(8) },
-        1 => Fault::Set { off: pick_off(rng), val: *rng.pick(&[0x00u8, 0xff, 0x7f, 0x80, 0x01, 0x20, 0x30, 0x66]) },
-        2 => Fault::Trunc { len: rng.index(len) },
+        0 => Fault::Flip {
+            bit: pick_off(rng) * 8 + rng.index(8),
+        },
+        1 => Fault::Set {
+            off: pick_off(rng),
+            val: *rng.pick(&[0x00u8, 0xff, 0x7f, 0x80, 0x01, 0x20, 0x30, 0x66]),
+        },
+        2 => Fault::Trunc {
+            len: rng.index(len),
+        },
         3 => Fault::Fill {
             off: pick_off(rng),
             len: *rng.pick(&[8usize, 16, 32, 64, 512]),
             val: if rng.chance(0.5) { 0 } else { 0xff },
         },
-        4 => Fault::DupTail { from: rng.index(len) },
+        4 => Fault::DupTail {
+            from: rng.index(len),
+        },
         5 => {
             // splice with another honest encoding: same form preferred (misframed stream of
             // messages of one kind), any encoding otherwise
             let same_form: Vec<usize> = (0..set.encodings.len())
                 .filter(|i| set.encodings[*i].form == enc.form && *i != src)
                 .collect();
-            let other = if !same_form.is_empty() && rng.chance(0.7) { *rng.pick(&same_form) } else { rng.index(set.encodings.len()) };
+            let other = if !same_form.is_empty() && rng.chance(0.7) {
+                *rng.pick(&same_form)
+            } else {
+                rng.index(set.encodings.len())
+            };
             let olen = set.encodings[other].bytes.len();
-            Fault::Splice { other, keep: rng.index(len + 1), from: rng.index(olen + 1) }
+            Fault::Splice {
+                other,
+                keep: rng.index(len + 1),
+                from: rng.index(olen + 1),
+            }
         }
-        _ => Fault::Concat { other: rng.index(set.encodings.len()) },
+        _ => Fault::Concat {
+            other: rng.index(set.encodings.len()),
+        },
     }
 }
 
@@ -327,7 +388,8 @@ impl WireEngine {
         let mut digest = Fingerprint::new();
         let mut states: Vec<u64> = Vec::new();
         // (clause, finding, location) -> (count, first case document, first detail)
-        let mut groups: BTreeMap<(String, Option<String>, String), (u64, Value, String)> = BTreeMap::new();
+        let mut groups: BTreeMap<(String, Option<String>, String), (u64, Value, String)> =
+            BTreeMap::new();
         let mut sample_cases: Vec<Value> = Vec::new();
         let mut cfgs: Vec<HonestCfg> = Vec::new();
         let mut fault_fired = false;
@@ -343,7 +405,12 @@ impl WireEngine {
             // (1) fault-free round trip of every encoding through every entry of its form
             for (e, enc) in set.encodings.iter().enumerate() {
                 for en in 0..enc.entries.len() {
-                    specs.push(CaseSpec { src: e, dst: e, entry: en, faults: vec![] });
+                    specs.push(CaseSpec {
+                        src: e,
+                        dst: e,
+                        entry: en,
+                        faults: vec![],
+                    });
                 }
             }
             if !fault_free_run {
@@ -352,7 +419,12 @@ impl WireEngine {
                 report.hit(&format!("primary:{}", set.encodings[primary].id()));
                 for faults in enumerate_primary(&set, primary) {
                     for en in 0..set.encodings[primary].entries.len() {
-                        specs.push(CaseSpec { src: primary, dst: primary, entry: en, faults: faults.clone() });
+                        specs.push(CaseSpec {
+                            src: primary,
+                            dst: primary,
+                            entry: en,
+                            faults: faults.clone(),
+                        });
                     }
                 }
                 // (3) seeded single faults anywhere in any encoding
@@ -361,7 +433,12 @@ impl WireEngine {
                     let src = r.index(n);
                     let entry = r.index(set.encodings[src].entries.len());
                     let f = random_fault(&mut r, &set, src, false);
-                    specs.push(CaseSpec { src, dst: src, entry, faults: vec![f] });
+                    specs.push(CaseSpec {
+                        src,
+                        dst: src,
+                        entry,
+                        faults: vec![f],
+                    });
                 }
                 // (4) seeded multi-fault cases (2-4 faults; splices, duplication, concatenation)
                 let mut r = rng.fork("multi");
@@ -369,8 +446,15 @@ impl WireEngine {
                     let src = r.index(n);
                     let entry = r.index(set.encodings[src].entries.len());
                     let k = r.range(2, 4) as usize;
-                    let faults: Vec<Fault> = (0..k).map(|_| random_fault(&mut r, &set, src, true)).collect();
-                    specs.push(CaseSpec { src, dst: src, entry, faults });
+                    let faults: Vec<Fault> = (0..k)
+                        .map(|_| random_fault(&mut r, &set, src, true))
+                        .collect();
+                    specs.push(CaseSpec {
+                        src,
+                        dst: src,
+                        entry,
+                        faults,
+                    });
                 }
                 // (5) misdirected delivery: an honest (or once-damaged) encoding reaches the
                 // decoder of another type / form
@@ -382,13 +466,22 @@ impl WireEngine {
                         dst = (dst + 1) % n;
                     }
                     let entry = r.index(set.encodings[dst].entries.len());
-                    let faults = if r.chance(0.5) { vec![] } else { vec![random_fault(&mut r, &set, src, false)] };
-                    specs.push(CaseSpec { src, dst, entry, faults });
+                    let faults = if r.chance(0.5) {
+                        vec![]
+                    } else {
+                        vec![random_fault(&mut r, &set, src, false)]
+                    };
+                    specs.push(CaseSpec {
+                        src,
+                        dst,
+                        entry,
+                        faults,
+                    });
                 }
             }
 
             // execute in chunks
-            for chunk in specs.chunks(256) {
+            for chunk in specs.chunks(1024) {
                 let mut inputs: Vec<(Vec<u8>, Vec<&'static str>)> = Vec::with_capacity(chunk.len());
                 let mut jobs = Vec::with_capacity(chunk.len());
                 for spec in chunk {
@@ -397,7 +490,9 @@ impl WireEngine {
                     inputs.push((input, fired));
                 }
                 let observations = exec::run_jobs(jobs);
-                for ((spec, (input, fired)), obs) in chunk.iter().zip(inputs.iter()).zip(observations.iter()) {
+                for ((spec, (input, fired)), obs) in
+                    chunk.iter().zip(inputs.iter()).zip(observations.iter())
+                {
                     let src = &set.encodings[spec.src];
                     let dst = &set.encodings[spec.dst];
                     let entry = &dst.entries[spec.entry];
@@ -417,7 +512,12 @@ impl WireEngine {
                         report.hit("fault_misdirected_delivery");
                         fault_fired = true;
                     }
-                    if !fault_free && !misdirected && src.bytes.first() == Some(&1) && input.first() != Some(&1) && !input.is_empty() {
+                    if !fault_free
+                        && !misdirected
+                        && src.bytes.first() == Some(&1)
+                        && input.first() != Some(&1)
+                        && !input.is_empty()
+                    {
                         report.hit("probe_version_byte_damaged");
                     }
                     let class = outcome_class(&obs.outcome);
@@ -427,18 +527,25 @@ impl WireEngine {
                         "ok_changed" => "decode_ok_value_changed",
                         "err" => "decode_err",
                         "panic" => "decode_panic",
+                        "died" => "decode_process_death",
+                        "hung" => "decode_hung",
                         _ => "decode_runaway_allocation",
                     });
                     let st = state_hash(dst.ty, dst.form, entry.name, fired, class, misdirected);
                     states.push(st);
                     digest.add_u64(st);
-                    if sample_cases.len() < 6 && ctx.want_sample && (!fault_free || sample_cases.is_empty()) {
+                    if sample_cases.len() < 6
+                        && ctx.want_sample
+                        && (!fault_free || sample_cases.is_empty())
+                    {
                         sample_cases.push(json!({
                             "type": dst.ty, "form": dst.form, "entry": entry.name,
                             "source": src.id(), "faults": spec.faults, "input_len": input.len(), "outcome": class,
                         }));
                     }
-                    let Some(j) = judge(fault_free, input.len(), obs) else { continue };
+                    let Some(j) = judge(fault_free, input.len(), obs) else {
+                        continue;
+                    };
                     digest.add(j.clause);
                     if !dst.in_statement {
                         // a decoder of local secrets: outside the statement, reported as a probe
@@ -455,7 +562,12 @@ impl WireEngine {
                     // first case of this group in the run: minimise and write it out
                     let (min_spec, min_input) = ex.minimise(spec, &j);
                     let min_obs = ex.decode_one(&min_spec, &min_input);
-                    let min_j = judge(ex.is_fault_free(&min_spec, &min_input), min_input.len(), &min_obs).unwrap_or(j.clone());
+                    let min_j = judge(
+                        ex.is_fault_free(&min_spec, &min_input),
+                        min_input.len(),
+                        &min_obs,
+                    )
+                    .unwrap_or(j.clone());
                     let doc = json!({
                         "set": set_index,
                         "type": dst.ty, "form": dst.form, "entry": entry.name,
@@ -485,8 +597,13 @@ impl WireEngine {
         }
         report.fingerprint = fp.value();
         report.states = states;
-        report.nontrivial = report.counters.get("cases").copied().unwrap_or(0) > 0 && (fault_free_run || fault_fired);
-        report.hit(if fault_free_run { "runs_fault_free" } else { "runs_fault_injecting" });
+        report.nontrivial = report.counters.get("cases").copied().unwrap_or(0) > 0
+            && (fault_free_run || fault_fired);
+        report.hit(if fault_free_run {
+            "runs_fault_free"
+        } else {
+            "runs_fault_injecting"
+        });
         report.digest = digest.value();
 
         let mut case_docs = Vec::new();
@@ -511,7 +628,9 @@ impl WireEngine {
             report.replay = Some(json!({"cfgs": cfgs, "cases": case_docs}));
         }
         if ctx.want_sample {
-            report.sample = Some(json!({"run": ctx.run, "cfg": cfgs[0], "fault_free_run": fault_free_run, "first_cases": sample_cases}));
+            report.sample = Some(
+                json!({"run": ctx.run, "cfg": cfgs[0], "fault_free_run": fault_free_run, "first_cases": sample_cases}),
+            );
         }
         RunOutput { report }
     }
@@ -543,13 +662,13 @@ impl Engine for WireEngine {
                 Tier::Thorough => 60_000,
             },
             level: "fault_enumeration",
-            rule: "SCOPED claim: inputs are honest encodings (produced by the real STM / mithril-common code from a seeded configuration) passed through a finite sequence of transport / storage faults; arbitrary byte strings, grammar-based generation and coverage-guided mutation are fuzzing and are NOT claimed. One run = one seeded honest value set (keys, registration, signatures, aggregate, certificates, proofs, messages; ~100 encodings: CBOR-v1 bytes, hand-packed legacy bytes, hex of both, JSON-hex, JSON, JSON-string documents, bincode, DMQ frame) + (1) the fault-free round trip of every encoding through every public entry point of its form, (2) for one primary encoding chosen round-robin by run index the COMPLETE single-fault enumeration (every bit flip in the first 64 bytes and in every structurally located version / length / count / header byte incl. nested envelopes, stuck-at overwrites 00/ff/7f/80 of those bytes, every truncation point, zero-fill and ones-fill of every 16-byte block) through every entry point of that encoding, (3) 150 seeded single faults anywhere, (4) 200 seeded 2-4-fault cases incl. tail duplication, splices and concatenation of two honest encodings, (5) 60 misdirected deliveries (an honest or once-damaged encoding handed to a decoder of another type/form). Every 5th run is fault-free with three value sets. 'evaluations' counts runs, counter 'cases' counts decoder invocations. A run is non-trivial iff at least one decode entry ran and, in fault-injecting runs, at least one fault fired (changed the buffer); distinct = hash of the set of (type, form, entry, fault kinds fired, outcome class) tuples of the run; abstract states = those tuples.".into(),
+            rule: "SCOPED claim: inputs are honest encodings (produced by the real STM / mithril-common code from a seeded configuration) passed through a finite sequence of transport / storage faults; arbitrary byte strings, grammar-based generation and coverage-guided mutation are fuzzing and are NOT claimed. One run = one seeded honest value set (keys, registration, signatures, aggregate, certificates, proofs, messages; ~100 encodings: CBOR-v1 bytes, hand-packed legacy bytes, hex of both, JSON-hex, JSON, JSON-string documents, bincode, DMQ frame) + (1) the fault-free round trip of every encoding through every public entry point of its form, (2) for one primary encoding chosen round-robin by run index the COMPLETE single-fault enumeration (every bit flip in the first 64 bytes and in every structurally located version / length / count / header byte incl. nested envelopes, stuck-at overwrites 00/ff/7f/80 of those bytes, every truncation point, zero-fill and ones-fill of every 16-byte block) through every entry point of that encoding, (3) 150 seeded single faults anywhere, (4) 200 seeded 2-4-fault cases incl. tail duplication, splices and concatenation of two honest encodings, (5) 60 misdirected deliveries (an honest or once-damaged encoding handed to a decoder of another type/form); the seeded counts (3)-(5) are x4 in the thorough tier. Every 5th run is fault-free with three value sets. 'evaluations' counts runs, counter 'cases' counts decoder invocations. A run is non-trivial iff at least one decode entry ran and, in fault-injecting runs, at least one fault fired (changed the buffer); distinct = hash of the set of (type, form, entry, fault kinds fired, outcome class) tuples of the run; abstract states = those tuples.".into(),
             assumptions: vec![
                 "fault model: bit flip, byte overwrite, truncation, constant fill of a block (0x00 lost sector, 0xff erased flash page), tail duplication, splice / concatenation of honest encodings, misdirected delivery, applied to the binary, hex and JSON text forms; at most 4 faults per case".into(),
                 "text handed to &str entry points is obtained with String::from_utf8_lossy (a lossy reader); JSON documents are parsed from raw bytes (serde_json::from_slice) as the HTTP stack does".into(),
                 "overflow checks and debug assertions are ON (sim profile): an arithmetic overflow that a default release build would wrap silently is reported as a violation because the statement forbids it; each replay file says which it is".into(),
                 "allocation monitor: largest single request <= 64 x input length + 1 MiB and peak live bytes <= 256 x input length + 8 MiB per decode; a request above 256 MiB is never served (the requesting thread is parked and the case reported), so Vec::with_capacity and vec![0; n] are observed alike".into(),
-                "unbounded loops are only caught by a 120 s no-progress watchdog that aborts the worker (worker death = violation); inputs are < 128 KiB".into(),
+                "decodes run in forked child processes: an abort / stack overflow / kill of the child is reported as process-death for the exact case; a decode that does not return within 120 s wall clock (10 s once a hang has been seen in the process) is killed and reported as unbounded-loop (the only wall-clock dependency; a case takes < 10 ms); inputs are < 128 KiB".into(),
                 "built without the future_snark feature (the default of every node crate): SNARK proof / key decoders are not compiled and not covered".into(),
                 "decoders only: verify() of a decoded-but-damaged proof or signature is not called".into(),
                 "ProtocolInitializer (signer-local secret) decoders are exercised as probes only (counters probe_outside_statement_*), never as violations: the statement is about data supplied by another node".into(),
@@ -562,7 +681,9 @@ impl Engine for WireEngine {
             stub_components: vec![
                 "none (the field-by-field conversions of mithril-aggregator's FromRegisterSignerAdapter / FromRegisterSingleSignatureAdapter are reproduced in the harness with the same ProtocolKey::try_from calls, to avoid linking the aggregator's global allocator)".into(),
             ],
-            worker_death_is_violation: true,
+            // decoders never run in the worker itself (forked children, see exec.rs): a dead
+            // worker is a harness problem, never evidence against the property
+            worker_death_is_violation: false,
             time_cap_s: match tier {
                 Tier::Quick => 900,
                 Tier::Thorough => 14_400,
@@ -581,7 +702,8 @@ impl Engine for WireEngine {
                 .get("cfgs")
                 .and_then(|c| serde_json::from_value(c.clone()).ok())
                 .unwrap_or_else(|| vec![HonestCfg::default_small()]);
-            let sets: Vec<Arc<HonestSet>> = cfgs.iter().map(|c| Arc::new(HonestSet::build(c))).collect();
+            let sets: Vec<Arc<HonestSet>> =
+                cfgs.iter().map(|c| Arc::new(HonestSet::build(c))).collect();
             let empty = Vec::new();
             for case in doc.get("cases").and_then(Value::as_array).unwrap_or(&empty) {
                 let set = &sets[(case["set"].as_u64().unwrap_or(0) as usize).min(sets.len() - 1)];
@@ -589,11 +711,19 @@ impl Engine for WireEngine {
                 let ty = case["type"].as_str().unwrap_or("");
                 let form = case["form"].as_str().unwrap_or("");
                 let entry_name = case["entry"].as_str().unwrap_or("");
-                let Some(dst) = set.encodings.iter().position(|e| e.ty == ty && e.form == form) else {
+                let Some(dst) = set
+                    .encodings
+                    .iter()
+                    .position(|e| e.ty == ty && e.form == form)
+                else {
                     eprintln!("replay: no encoding {ty}/{form}");
                     std::process::exit(2)
                 };
-                let Some(entry) = set.encodings[dst].entries.iter().position(|e| e.name == entry_name) else {
+                let Some(entry) = set.encodings[dst]
+                    .entries
+                    .iter()
+                    .position(|e| e.name == entry_name)
+                else {
                     eprintln!("replay: no entry {entry_name} for {ty}/{form}");
                     std::process::exit(2)
                 };
@@ -601,7 +731,12 @@ impl Engine for WireEngine {
                     eprintln!("replay: bad input_hex");
                     std::process::exit(2)
                 };
-                let spec = CaseSpec { src: dst, dst, entry, faults: vec![] };
+                let spec = CaseSpec {
+                    src: dst,
+                    dst,
+                    entry,
+                    faults: vec![],
+                };
                 let obs = ex.decode_one(&spec, &input);
                 let fault_free = input == set.encodings[dst].bytes;
                 println!(
@@ -615,7 +750,11 @@ impl Engine for WireEngine {
                     report.violations.push(Violation {
                         property: PROPERTY.into(),
                         clause: j.clause.into(),
-                        detail: format!("{ty}/{form} via {entry_name}: {} ({})", j.detail, release_note(j.clause)),
+                        detail: format!(
+                            "{ty}/{form} via {entry_name}: {} ({})",
+                            j.detail,
+                            release_note(j.clause)
+                        ),
                         finding,
                     });
                 }
@@ -624,7 +763,3 @@ impl Engine for WireEngine {
         })
     }
 }
-
-#[allow(dead_code)]
-fn _keep(_: fn(&str) -> u64) {}
-const _: fn(&str) -> u64 = fnv64_str;
